@@ -63,3 +63,36 @@ theorem step_external_mono (ns : NewSsi) (op : Op) (h : ns.external = true) : (s
   | setMaxRam m => simpa [step] using h
 
 end EaselModel.Ssi
+
+namespace EaselModel.Ssi
+
+/-! ## `esl_ssi_Open`'s documented failure cases -/
+
+theorem open_short (d : Array UInt8) (h : d.size < 12) : Ssi.open d = .error .eformat := by
+  have hnone : readFields d 0 [4, 4, 4] = none := by
+    simp only [readFields, readU, readAt]
+    by_cases h1 : 0 + 4 ≤ d.size
+    · by_cases h2 : 0 + 4 + 4 ≤ d.size
+      · have h3 : ¬ (0 + 4 + 4 + 4 ≤ d.size) := by omega
+        simp [h1, h2, h3]
+      · simp [h1, h2]
+    · simp [h1]
+  unfold Ssi.open
+  rw [hnone]
+
+theorem open_bad_magic (d : Array UInt8) (magic flags offsz : Nat) (h : readFields d 0 [4, 4, 4] = some [magic, flags, offsz])
+    (hm : magic ≠ V30MAGIC ∧ magic ≠ V30SWAP) : Ssi.open d = .error .eformat := by
+  unfold Ssi.open
+  rw [h]
+  simp [hm]
+
+theorem open_bad_offsz (d : Array UInt8) (magic flags offsz : Nat) (h : readFields d 0 [4, 4, 4] = some [magic, flags, offsz])
+    (hm : magic = V30MAGIC ∨ magic = V30SWAP) (ho : offsz ≠ 4 ∧ offsz ≠ 8) : Ssi.open d = .error .erange := by
+  have hm' : ¬ (magic ≠ V30MAGIC ∧ magic ≠ V30SWAP) := by
+    rcases hm with h1 | h1 <;> simp [h1]
+  unfold Ssi.open
+  rw [h]
+  simp only [hm', ↓reduceIte]
+  rw [if_pos ho]
+
+end EaselModel.Ssi
